@@ -5,7 +5,7 @@ import time
 
 from common import WORK, Outcome, ToolError, known_keys, log, ordv, parse_trace_result, read_ndjson, run_tlc
 
-FAMILY = ("C22", "C23", "C24")
+FAMILY = ("C21", "C22", "C23", "C24")
 MODELS = {"quick": [("WalletModel.cfg", 900)],
           "thorough": [("WalletModel.cfg", 900), ("WalletModel_same.cfg", 900), ("WalletModel_wide.cfg", 3600), ("WalletModel_deep.cfg", 7000)]}
 
@@ -71,9 +71,46 @@ def run_offers(prop, tier, seed):
     return outcome, cov, time.time() - t0
 
 
+def run_batch(prop, tier, seed):
+    t0 = time.time()
+    outcome = Outcome(prop)
+    res = run_tlc("BatchModel.tla", "BatchModel.cfg" if tier == "quick" else "BatchModel_big.cfg", workers=4, timeout=1800, deque=False)
+    if res["timeout"]:
+        raise ToolError("BatchModel timed out")
+    if not res["completed"]:
+        detail = res["out"][res["out"].find("Error:"):][:1500]
+        outcome.violation("BatchModel: " + detail.replace("\n", " ")[:700], {"property": prop, "kind": "batch-model", "tlc": detail})
+    worlds, ops = (2, 10) if tier == "quick" else (12, 25)
+    trace = os.path.join(WORK, "wallet-batch-%s-%d.ndjson" % (tier, seed))
+    ordv(["wallet-batch", "--seed", str(seed), "--worlds", str(worlds), "--ops", str(ops), "--out", trace], timeout=20000)
+    validate(prop, prop, trace, outcome, spec="BatchTrace")
+    validate("DRIFT", prop, trace, outcome, verdict=False, spec="BatchTrace")
+    lines = [x for x in read_ndjson(trace) if x["event"] == "Batch"]
+    classes = {}
+    distinct = set()
+    for x in lines:
+        k = "%s:%s%s" % (x["mode"], "ok" if x["ok"] else "refused", "+etching" if x["etch"] else "")
+        classes[k] = classes.get(k, 0) + 1
+        if x["ok"] and (x["count"] > 1 or x["nparents"] > 0 or x["etch"]):
+            distinct.add(json.dumps([x["mode"], x["count"], x["postages"], x["parents"], x["etch"], x["premine"], x["subject"]]))
+    cov = {"evaluations": len(lines), "distinct_nontrivial": len(distinct),
+           "rule": "seeded random batch files (mode x 1-4 inscriptions x postage {default, 777, 3000, 12345} x 0-2 parents in either order x "
+                   "optional per-inscription destinations, metadata, delegate x optional etching with premine {0, 25, 1000}, with/without "
+                   "terms; satpoints mode on small cardinal outputs; same-sat on a chosen cardinal satpoint or reinscribing a held "
+                   "inscription; fee rates 1/2.5/5) run through the real `ord wallet batch` against a wallet that also holds inscribed, runic "
+                   "and inscribed+runic outputs; commit and reveal are mined (etching batches wait for maturity while blocks are mined) and "
+                   "the real index is read back; distinct_nontrivial = distinct successful batch shapes with several inscriptions, parents "
+                   "or an etching",
+           "samples": [lines[0], lines[len(lines) // 2]], "states": res.get("distinct", 0), "transitions": res.get("states", 0),
+           "traces_validated_against_impl": 1, "outcome_classes": classes}
+    return outcome, cov, time.time() - t0
+
+
 def run(prop, tier, seed):
     if prop == "C24":
         return run_offers(prop, tier, seed)
+    if prop == "C21":
+        return run_batch(prop, tier, seed)
     t0 = time.time()
     outcome = Outcome(prop)
     states = distinct = 0
